@@ -56,8 +56,6 @@ pub fn set_src_path(p: Option<&str>) {
 }
 
 fn new_ctx(driver: &mut LocalBufferDriver, with_scheduler: bool) -> ExecContext {
-    // the driver's shared sample-rate cell is what `samplerate` reads on the VM
-    driver.set_sample_rate(mimium_audiodriver::driver::SampleRate::from(device_sr()));
     let audiodriverplug: Box<dyn Plugin> = Box::new(driver.get_as_plugin());
     let path = SRC_PATH.with(|s| s.borrow().clone());
     let mut ctx = ExecContext::new([audiodriverplug].into_iter(), path, Config::default());
@@ -81,6 +79,9 @@ impl VmRun {
         ctx.prepare_machine(src).map_err(|e| errs_to_strings(&e))?;
         let _ = ctx.run_main();
         let rt = RuntimeData::try_from(&mut ctx).map_err(|_| vec!["no vm".to_string()])?;
+        // mimium-cli: ctx.run_main() first, then Driver::init(runtimedata, Some(rate)) stores the device's rate in the driver's
+        // shared cell, which is what `samplerate` reads on the VM (until then the cell holds the driver's default, 48000)
+        driver.set_sample_rate(mimium_audiodriver::driver::SampleRate::from(device_sr()));
         Ok(Self { driver, rt, with_scheduler })
     }
     pub fn io(&self) -> Option<IoChannelInfo> {
@@ -143,13 +144,13 @@ fn build_wasm(src: &str, with_scheduler: bool, prewarm: bool) -> Result<WasmBuil
     engine.load_module(&out.bytes).map_err(|e| vec![format!("load: {e}")])?;
     let mut rt = WasmDspRuntime::new(engine, out.io_channels, out.dsp_state_skeleton.clone());
     rt.set_wasm_audioworkers(workers);
-    // what Driver::init does with the device's rate; the PREWARMED runtime of a hot swap never meets a driver
-    // (mimium-cli try_prewarm_wasm_global_state runs main on a fresh WasmDspRuntime), the running runtime passes its
-    // rate on in try_hot_swap
+    // mimium-cli runs main FIRST (run_wasm_on_init; run_main) and hands the runtime to the driver afterwards: Driver::init sets
+    // the device's rate.  The PREWARMED runtime of a hot swap never meets a driver (try_prewarm_wasm_global_state runs main on a
+    // fresh WasmDspRuntime); the running runtime passes its rate on in try_hot_swap.
+    rt.run_main().map_err(|e| vec![format!("main: {e}")])?;
     if !prewarm {
         rt.set_sample_rate(device_sr() as f64);
     }
-    rt.run_main().map_err(|e| vec![format!("main: {e}")])?;
     Ok(WasmBuilt { rt, skeleton: out.dsp_state_skeleton, io: out.io_channels, bytes: out.bytes })
 }
 
